@@ -197,7 +197,7 @@ def opFdef (j : Json) : R Json := do
     let js := render (toJson f)
     let second : List (String × Json) := match fromJsonStr parseJsonText js with
       | .ok f2 =>
-        let arm := "base64:" ++ String.ofList (b64encode js.toUTF8.toList)
+        let arm := armorOf js
         let j3 := match fromArmor parseJsonText arm with
           | .ok f3 => Json.str (render (toJson f3))
           | .err => Json.str "ERR"
